@@ -866,7 +866,7 @@ ALLOW_QUANT = dict(
     mask_spells=["kw", "pos"],
     ew=["tanh", "relu", "mulc", "layer_norm", "layer_norm_mod", "gelu", "sin"],
     shape=["flat", "transpose2", "slice_cat", "rotate_half"],
-    add_spells=["plus", "torch.add"],
+    add_spells=["plus", "torch.add", "iadd"],
     plain_add=["fork", "param", "x2"],
     extra=["usdpa"],
 )
